@@ -464,6 +464,14 @@ FUNCTIONS = [
         fn='decay_return_type', module='DecayReturnType', header='',
     ),
     dict(
+        name='is_null_overloads', cxx='trompeloeil::is_null (the overload set) and is_null_redirect', file=MOCK, kind='overloads',
+        fn='is_null', module='IsNullOverloads', header='',
+    ),
+    dict(
+        name='is_null_redirect_overloads', cxx='trompeloeil::is_null_redirect', file=MOCK, kind='overloads',
+        fn='is_null_redirect', module='IsNullRedirect', header='',
+    ),
+    dict(
         name='compare_table', cxx='matcher/compare.hpp: eq ne lt le gt ge and their functors', file='include/trompeloeil/matcher/compare.hpp',
         kind='compare_table', module='CompareTable', header='',
     ),
